@@ -7,7 +7,7 @@
    (ObjectAlignmenter::Check), fewer than 2^32 columns in one call. *)
 From Coq Require Import ZArith List Bool.
 From MomoCommon Require Import GenPrelude.
-From C18 Require Gen_Vertices Gen_Ceil Gen_List Gen_Raw Gen_Bits Gen_Mut Model Layout Fill Vertices Bits Inv Main RawLife RawGen Static.
+From C18 Require Gen_Vertices Gen_Ceil Gen_List Gen_Raw Gen_Bits Gen_Mut Gen_PvCreate PvCreate Model Layout Fill Vertices Bits Inv Main RawLife RawGen Static.
 Import ListNotations.
 Local Open Scope Z_scope.
 
@@ -397,6 +397,32 @@ Theorem C18_generated_GetBit_iff_added_mutable :
        exists r, In r (Model.columns (Model.run_f L keep ops)) /\ Model.r_off r = o /\ Model.r_mut r = true).
 Proof. exact Main.reachable_generated_GetBit. Qed.
 Print Assumptions C18_generated_GetBit_iff_added_mutable.
+
+(* last round: pvCreate<Item, Items...> (variadic recursion with a try/catch around the recursive instantiation).  Gen_PvCreate.v holds
+   the statement tree of EVERY instantiation (deep embedding, dumped uninterpreted).  AST facts, by computation on those trees: each
+   recursive instantiation reads as [construct THIS item (Create or Copy into `item`); try { pvCreate(.., columns + 1, ..) }
+   catch { Destroy this item; throw; }] and each base instantiation is empty ... *)
+Theorem C18_pvCreate_every_instantiation_has_the_shape :
+  forallb (fun b => match PvCreate.acts_of b with Some a => PvCreate.same_acts a PvCreate.step_acts | None => false end)
+          Gen_PvCreate.pvCreate_steps = true /\
+  forallb (fun b => match PvCreate.acts_of b with Some [] => true | _ => false end) Gen_PvCreate.pvCreate_bases = true /\
+  Gen_PvCreate.pvCreate_steps <> [] /\ Gen_PvCreate.pvCreate_bases <> [].
+Proof. exact PvCreate.shape_facts. Qed.
+Print Assumptions C18_pvCreate_every_instantiation_has_the_shape.
+
+(* ... that shape means exactly one step of the hand model RawLife.create_group (the model the row theorems are about) ... *)
+Theorem C18_pvCreate_step_is_hand_model :
+  forall c cs k, PvCreate.run c (fun k' => RawLife.create_group k' cs) PvCreate.step_acts k = RawLife.create_group k (c :: cs).
+Proof. exact PvCreate.step_is_create_group. Qed.
+Print Assumptions C18_pvCreate_step_is_hand_model.
+
+(* ... and the whole recursion over any group of items, read through ANY generated step instantiation and ANY generated base
+   instantiation, for any failure schedule, is RawLife.create_group *)
+Theorem C18_generated_pvCreate_is_create_group :
+  forall sb bb, In sb Gen_PvCreate.pvCreate_steps -> In bb Gen_PvCreate.pvCreate_bases ->
+    forall cs k, PvCreate.interp_group sb bb cs k = Some (RawLife.create_group k cs).
+Proof. exact PvCreate.generated_pvCreate_is_create_group. Qed.
+Print Assumptions C18_generated_pvCreate_is_create_group.
 
 (* round 7: the GENERATED IsMutable member (MOMO_ASSERT(offset < mTotalSize) -> Stuck, then the generated GetBit on
    mMutableOffsets.GetItems()) on every reachable state: at a column's offset the assertion holds and the answer is whether the
